@@ -11,7 +11,7 @@ from pbt import core, formats, strategies as S
 from pbt.core import Failure
 
 ID = "C01"
-RULE = ("Files from per-format grammars (two-line and wrapped FASTA, FASTQ, BED3, BED6, bedGraph, narrowPeak, VCF, SAM, GTF) "
+RULE = ("Files from per-format grammars (two-line and wrapped FASTA, FASTQ, BED3, BED6, bedGraph, narrowPeak, VCF, SAM, GTF; in the sampled part also BED12, GFF3, GFA, pairs, wiggle-as-bedGraph and chrom.sizes) "
         "crossed with chunk size k, {plain, gzip}, {final newline, none}, {LF, CRLF}, {lazy, eager}. "
         "Exhaustive core: every sequence of 1..n records whose variable fields all have a width from a small set, every k from 1 to size+2 "
         "and every combination of the four flags. Sampled remainder: Hypothesis files of up to 60 records with k biased to divisors of "
@@ -26,12 +26,14 @@ ASSUMPTIONS = [
 ]
 REQUIRED_CLASSES = ["k-divides-size", "no-final-newline", "gzip", "crlf", "lazy", "eager", "k-lt-size", "via-path"]
 BOUNDS = {
-    "quick": "core: widths {1,2}, up to 3 records, all 10 formats, all k in 1..size+2, all 16 flag combinations (every 4th case from each of 4 offsets = complete), plus a 1-in-8 stride sample of the same core with widths {1,5}; 40 sampled files per format",
-    "thorough": "core: widths {1,2,5}, up to 4 records, all 10 formats, all k, all 16 flag combinations; 500 sampled files per format",
+    "quick": "core: widths {1,2}, up to 3 records, all 10 formats, all k in 1..size+2, all 16 flag combinations (every 4th case from each of 4 offsets = complete), plus a 1-in-8 stride sample of the same core with widths {1,5}; 40 sampled files for each of 16 formats",
+    "thorough": "core: widths {1,2,5}, up to 4 records, all 10 formats, all k, all 16 flag combinations; 500 sampled files for each of 16 formats",
 }
 BUDGET_S = {"quick": 300, "thorough": 1500}
 
 FMTS = ["fasta2", "fastaml", "fastq", "bed3", "bed6", "bdg", "narrowpeak", "vcf", "sam", "gtf"]
+# formats that take part in the sampled remainder only
+SAMPLED_ONLY = ["bed12", "gff", "gfa", "pairs", "wig", "chromsizes"]
 
 
 # ---------------------------------------------------------------------------------------
@@ -250,13 +252,13 @@ def tasks(tier, seed):
             # very unequal field widths in one column (a one-character field at the start of a chunk, a five-character one later in it)
             for off in range(2):
                 out.append(("task_core", dict(fmt=fmt, widths=[1, 5], max_records=3, stride=16, offset=off * 8 + 1)))
-        for i, fmt in enumerate(FMTS):
+        for i, fmt in enumerate(FMTS + SAMPLED_ONLY):
             out.append(("task_sampled", dict(fmt=fmt, n=40, seed=seed * 1000 + i, max_records=20, W=20)))
     else:
         for fmt in FMTS:
             for off in range(16):
                 out.append(("task_core", dict(fmt=fmt, widths=[1, 2, 5], max_records=4, stride=16, offset=off)))
-        for i, fmt in enumerate(FMTS):
+        for i, fmt in enumerate(FMTS + SAMPLED_ONLY):
             for j in range(2):
                 out.append(("task_sampled", dict(fmt=fmt, n=250, seed=seed * 1000 + i * 10 + j, max_records=60, W=40)))
     return out
